@@ -7,25 +7,29 @@ use crate::prng::Rng;
 pub fn boundaries<T: Elem>(nan: bool) -> Vec<T> {
     let mut v: Vec<u64> = Vec::new();
     if T::FLOAT {
-        let (ebits, mbits) = if T::BITS == 32 { (8u32, 23u32) } else { (11u32, 52u32) };
+        let (ebits, mbits) = if T::BITS == 32 {
+            (8u32, 23u32)
+        } else {
+            (11u32, 52u32)
+        };
         let sign = 1u64 << (T::BITS - 1);
         let exp_mask = ((1u64 << ebits) - 1) << mbits;
         let man_mask = (1u64 << mbits) - 1;
         let bias = (1u64 << (ebits - 1)) - 1;
         let mut pos: Vec<u64> = vec![
-            0,                          // +0
-            1,                          // min subnormal
-            man_mask,                   // max subnormal
-            man_mask >> 1,              // mid subnormal
-            1u64 << mbits,              // min normal
-            exp_mask - 1,               // max finite
-            exp_mask - (1u64 << mbits), // 2^emax
-            exp_mask,                   // +inf
-            bias << mbits,              // 1.0
-            (bias << mbits) + 1,        // 1 + ulp
-            (bias << mbits) - 1,        // 1 - ulp/2
-            (bias + 1) << mbits,        // 2.0
-            (bias - 1) << mbits,        // 0.5
+            0,                                             // +0
+            1,                                             // min subnormal
+            man_mask,                                      // max subnormal
+            man_mask >> 1,                                 // mid subnormal
+            1u64 << mbits,                                 // min normal
+            exp_mask - 1,                                  // max finite
+            exp_mask - (1u64 << mbits),                    // 2^emax
+            exp_mask,                                      // +inf
+            bias << mbits,                                 // 1.0
+            (bias << mbits) + 1,                           // 1 + ulp
+            (bias << mbits) - 1,                           // 1 - ulp/2
+            (bias + 1) << mbits,                           // 2.0
+            (bias - 1) << mbits,                           // 0.5
             ((bias + 1) << mbits) | (1u64 << (mbits - 1)), // 3.0
             ((bias - 2) << mbits) | (man_mask / 3),        // ~1/3
             (bias + mbits as u64) << mbits,                // 2^mbits
@@ -56,11 +60,11 @@ pub fn boundaries<T: Elem>(nan: bool) -> Vec<T> {
             1,
             2,
             3,
-            all,          // -1 / MAX
-            all - 1,      // -2 / MAX-1
-            top,          // MIN / 2^(bits-1)
-            top + 1,      // MIN+1
-            top - 1,      // MAX (signed)
+            all,     // -1 / MAX
+            all - 1, // -2 / MAX-1
+            top,     // MIN / 2^(bits-1)
+            top + 1, // MIN+1
+            top - 1, // MAX (signed)
             top - 2,
             top >> 1,
             half,
